@@ -1,0 +1,99 @@
+//go:build verif
+
+package proto
+
+// Contracts for the column layer: interface contracts (abstract row count) and composite columns.
+// (comment-only; read by /verif/govc)
+
+// ---------------------------------------------------------------------------
+// Interface contracts.  A column seen through an interface is abstracted by the ghost `nrows`
+// (= what Rows() reports).  Every implementation in this package is verified against the
+// corresponding clauses in its own terms (nrows := len(c), len(c.Pos), len(c.Offsets), ...).
+
+//@ ghost field (ColumnOf) nrows Int
+//@ ghost field (Column) nrows Int
+//@ ghost field (ColResult) nrows Int
+//@ ghost field (ColInput) nrows Int
+
+//@ interface ColumnOf.Rows(c) (n)
+//@   ensures n == c.nrows && 0 <= n
+//@ interface ColumnOf.Reset(c)
+//@   modifies c.nrows
+//@   ensures c.nrows == 0
+//@ interface ColumnOf.DecodeColumn(c, r, rows) (err)
+//@   requires r != nil && c.nrows == 0 && 0 <= rows && rows <= maxRowsInBLock
+//@   modifies c.nrows, r.pos, r.failed, r.b.Buf
+//@   ensures err == nil ==> c.nrows == rows
+//@   ensures err == nil ==> r.failed == old(r.failed)
+//@   ensures old(r.pos) <= r.pos && r.pos <= r.end
+//@ interface ColumnOf.Row(c, i) (v)
+//@   requires 0 <= i && i < c.nrows
+//@ interface ColumnOf.EncodeColumn(c, b)
+//@   requires b != nil
+//@   modifies b.Buf
+//@   ensures appendsOnly(b)
+//@ interface ColumnOf.Append(c, v)
+//@   modifies c.nrows
+//@   ensures c.nrows == old(c.nrows) + 1
+//@ interface ColumnOf.AppendArr(c, vs)
+//@   modifies c.nrows
+//@   ensures c.nrows == old(c.nrows) + len(vs)
+
+//@ interface Column.Rows(c) (n)
+//@   ensures n == c.nrows && 0 <= n
+//@ interface Column.Reset(c)
+//@   modifies c.nrows
+//@   ensures c.nrows == 0
+//@ interface Column.DecodeColumn(c, r, rows) (err)
+//@   requires r != nil && c.nrows == 0 && 0 <= rows && rows <= maxRowsInBLock
+//@   modifies c.nrows, r.pos, r.failed, r.b.Buf
+//@   ensures err == nil ==> c.nrows == rows
+//@   ensures err == nil ==> r.failed == old(r.failed)
+//@   ensures old(r.pos) <= r.pos && r.pos <= r.end
+//@ interface ColResult.Rows(c) (n)
+//@   ensures n == c.nrows && 0 <= n
+//@ interface ColResult.Reset(c)
+//@   modifies c.nrows
+//@   ensures c.nrows == 0
+//@ interface ColResult.DecodeColumn(c, r, rows) (err)
+//@   requires r != nil && c.nrows == 0 && 0 <= rows && rows <= maxRowsInBLock
+//@   modifies c.nrows, r.pos, r.failed, r.b.Buf
+//@   ensures err == nil ==> c.nrows == rows
+//@   ensures err == nil ==> r.failed == old(r.failed)
+//@   ensures old(r.pos) <= r.pos && r.pos <= r.end
+//@ interface ColInput.Rows(c) (n)
+//@   ensures n == c.nrows && 0 <= n
+
+//@ contract checkRows(n) (err) props(C06)
+//@   ensures err == nil <==> (0 <= n && n <= maxRowsInBLock)
+
+// ---------------------------------------------------------------------------
+// Array(T): cumulative offsets + flattened data.
+// wfArr: offsets are non-decreasing and the last one equals the number of data rows; this is what
+// makes Row(i) panic-free for every i below Rows() (C06), and it must hold after every decode.
+
+//@ valid (c *ColArr): c != nil ==> c.Data != nil
+//@ spec func wfArr(c Val) Bool = (forall k in 1..len(c.Offsets) :: c.Offsets[k - 1] <= c.Offsets[k]) && (len(c.Offsets) > 0 ==> c.Offsets[len(c.Offsets) - 1] == c.Data.nrows) && (forall k in 0..len(c.Offsets) :: c.Offsets[k] <= maxRowsInBLock)
+
+//@ contract (c ColArr) Rows() (n) props(C01,C06,C16)
+//@   ensures n == len(c.Offsets)
+
+//@ contract (c *ColArr) Reset() props(C16)
+//@   requires c != nil
+//@   modifies c.Offsets, c.Data.nrows
+//@   ensures len(c.Offsets) == 0 && c.Data.nrows == 0 {empty-after-reset}
+
+//@ contract (c *ColArr) DecodeColumn(r, rows) (err) props(C01,C06,C07,C16)
+//@   requires c != nil && r != nil && len(c.Offsets) == 0 && c.Data.nrows == 0 && 0 <= rows && rows <= maxRowsInBLock
+//@   modifies c.Offsets, c.Data.nrows, r.pos, r.failed, r.b.Buf
+//@   ensures err == nil ==> len(c.Offsets) == rows {rows}
+//@   ensures err == nil ==> wfArr(c) {offsets-consistent}
+//@   ensures err == nil ==> r.failed == old(r.failed)
+//@   ensures old(r.pos) <= r.pos && r.pos <= r.end
+
+//@ contract (c ColArr) RowAppend(i, target) (out) props(C06)
+//@   requires c.Data != nil && wfArr(c) && 0 <= i && i < len(c.Offsets)
+//@ loop 0 (target, idx)
+//@   invariant (i == 0 ==> 0 <= idx) && (i > 0 ==> c.Offsets[i - 1] <= idx) && idx <= c.Offsets[i]
+//@ contract (c ColArr) Row(i) (out) props(C06)
+//@   requires c.Data != nil && wfArr(c) && 0 <= i && i < len(c.Offsets)
